@@ -307,3 +307,6 @@ C07 = Prop(
     design_ref="4 Engine FV (C06, C07)",
     assumptions=["no element operation throws in C07 histories (throwing histories are C06's)"],
 )
+
+C07.rule += " Half of the range appends / range insertions hand over a single-pass input range (iterator copies share one read position, like istream_iterator)."
+C06.rule += " Half of the range appends / range insertions hand over a single-pass input range."
